@@ -140,6 +140,54 @@ def shrink_bucket(mod, sub: Sub, idx: int, tier: str, seed: int, shard: int, nsh
     return state["last"]
 
 
+def run_fuzz_campaigns(mod, pid, tier, seed, jobs, only, results):
+    """Coverage-guided campaigns (atheris) for the sub-checks that ask for one in this tier; results are appended to
+    ``results`` as extra shards. Returns a summary for the evidence (None when nothing ran)."""
+    import shutil
+    import subprocess
+    import tempfile
+
+    subs = [s for s in mod.SUBS if s.strategy is not None and s.fuzz.get(tier, 0) > 0 and (not only or s.name in only)]
+    if not subs:
+        return None
+    deps = os.path.join(VERIF_DIR, ".deps")
+    env = dict(os.environ, PYTHONPATH=deps + os.pathsep + os.environ.get("PYTHONPATH", ""))
+    if subprocess.run([sys.executable, "-c", "import atheris"], env=env, capture_output=True).returncode != 0:
+        subprocess.run([sys.executable, "-m", "pip", "install", "-q", "--no-index", "--find-links", "/opt/veriftools/wheels",
+                        "--target", deps, "atheris"], capture_output=True)
+        if subprocess.run([sys.executable, "-c", "import atheris"], env=env, capture_output=True).returncode != 0:
+            return {"skipped": "atheris not installable from the wheelhouse"}
+    work = tempfile.mkdtemp(prefix="verif_fuzz_")
+    info = {"engine": "atheris/libFuzzer driving hypothesis fuzz_one_input", "campaigns": []}
+    try:
+        workers = max(1, min(4, jobs // max(1, len(subs))))
+        procs = []
+        for s in subs:
+            for w in range(workers):
+                out = os.path.join(work, f"{s.name}.{w}.json")
+                cmd = [sys.executable, "-m", "pbt.fuzz", pid, s.name, str(s.fuzz[tier]), str(seed * 100 + w + 1), out,
+                       os.path.join(work, f"corpus_{s.name}_{w}")]
+                procs.append((s, w, out, subprocess.Popen(cmd, env=env, stdout=subprocess.DEVNULL, stderr=subprocess.DEVNULL, cwd=VERIF_DIR)))
+        for s, w, out, p in procs:
+            try:
+                p.wait(timeout=s.fuzz[tier] * 3 + 300)
+            except subprocess.TimeoutExpired:
+                p.kill()
+            if not os.path.exists(out):
+                info["campaigns"].append({"sub": s.name, "worker": w, "error": "no output", "exit": p.returncode})
+                continue
+            d = json.load(open(out))
+            if d.get("harness_error"):
+                results.append({"ok": False, "shard": f"fuzz:{s.name}:{w}", "error": d["harness_error"]})
+                continue
+            info["campaigns"].append({"sub": s.name, "worker": w, "libfuzzer_executions": d["fuzz_execs"], "cases_evaluated": d["evaluations"],
+                                      "distinct_cases": len(d["all_hashes"]), "seconds": round(d["fuzz_seconds"], 1)})
+            results.append({"ok": True, "shard": 1000 + w, "subs": {s.name: d}})
+    finally:
+        shutil.rmtree(work, ignore_errors=True)
+    return info
+
+
 def save_replay(pid: str, sub: str, label: str, entry: dict, shrunk: bool, seed: int) -> str:
     d = os.path.join(os.environ.get("VERIF_REPLAY_DIR") or os.path.join(VERIF_DIR, "replays"), pid)
     os.makedirs(d, exist_ok=True)
@@ -283,9 +331,16 @@ def main(argv=None) -> int:
         print(bad[0]["error"])
         return 2
 
+    fuzz_info = run_fuzz_campaigns(mod, pid, tier, seed, jobs, a.only, results)
+    bad = [r for r in results if not r["ok"]]
+    if bad:
+        print("harness error in coverage-guided campaign:", [r["shard"] for r in bad])
+        print(bad[0]["error"])
+        return 2
+
     recs: Dict[str, Recorder] = {}
     first_shard: Dict[tuple, int] = {}
-    for r in sorted(results, key=lambda r: r["shard"]):
+    for r in sorted(results, key=lambda r: (not isinstance(r["shard"], int), str(r["shard"]) if not isinstance(r["shard"], int) else r["shard"])):
         for name, d in r["subs"].items():
             recs.setdefault(name, Recorder(name)).merge_json(d)
             for label in d["violations"]:
@@ -303,7 +358,7 @@ def main(argv=None) -> int:
         # smallest recorded case as fallback
         entry = min(recs[name].violations[label], key=lambda e: len(canon(e["case"])))
         shrunk = None
-        if bi < max_shrunk:
+        if bi < max_shrunk and first_shard[(name, label)] < 1000:  # cases found by the fuzzer have no Hypothesis seed
             try:
                 shrunk = shrink_bucket(mod, sub, idx, tier, seed, first_shard[(name, label)], nshards, scale,
                                        label, shrink_budget)
@@ -346,6 +401,7 @@ def main(argv=None) -> int:
             for name, r in recs.items()
         },
         "known_findings": kinfo,
+        "coverage_guided_fuzzing": fuzz_info,
         "replays_written": replay_paths,
         "shards": nshards,
         "engine": "hypothesis " + __import__("hypothesis").__version__,
